@@ -497,9 +497,11 @@ def write_files(files: dict, dirpath: str) -> None:
         if ft["shape"] == "rows":
             hdr, rows = ft["header"], ft["rows"]
             if fmt == "csv":
-                text = ",".join(hdr) + "\n" + "".join(",".join(r) + "\n" for r in rows)
+                text = _csv_line(hdr) + "".join(_csv_line(r) for r in rows)
             elif fmt == "ndjson":
-                text = "".join(json.dumps(dict(zip(hdr, r))) + "\n" for r in rows)
+                # raw (unescaped) non-ASCII, as a hand-written or exported file has it: U+2028 / U+0085 are line breaks
+                # to str.splitlines() but not to a line-oriented reader
+                text = "".join(json.dumps(dict(zip(hdr, r)), ensure_ascii=False) + "\n" for r in rows)
             elif fmt == "json":
                 text = json.dumps([dict(zip(hdr, r)) for r in rows])
             else:
@@ -509,6 +511,17 @@ def write_files(files: dict, dirpath: str) -> None:
             text = json.dumps(doc) if fmt == "json" else yaml.safe_dump(doc, sort_keys=False, allow_unicode=True)
         with open(path, "w", encoding="utf-8", newline="") as fh:
             fh.write(text)
+
+
+def _csv_line(cells) -> str:
+    """One RFC 4180 record: cells holding a comma, a quote or a line break are quoted, quotes doubled."""
+    out = []
+    for c in cells:
+        c = str(c)
+        if any(ch in c for ch in ',"\n\r'):
+            c = '"' + c.replace('"', '""') + '"'
+        out.append(c)
+    return ",".join(out) + "\n"
 
 
 def remove_files(files: dict, dirpath: str) -> None:
@@ -768,7 +781,13 @@ KEY_POOL = ["b", "a", "x10", "x9", "x1", "x2", "B", "A", "Z", "z", "_k", "k_", "
             "m", "n10", "n9", "10", "9", "é", "e", "value", "factor", "addend", "seed", "Seed", "a.b", "a b"]
 RAW_POOL = ["c0", "c1", "c2", "col", "Col", "raw_a", "raw_b", "c10", "c9", "f", "g"]
 SCALARS = [0, 1, 2, 3, 5, 7, 10, -1, 0.5, 1.25, 2.0, -3.5, "x", "y", "z", "p q", "α", "1", "true", True, False]
-CSV_TOKENS = ["1", "2", "3", "10", "-4", "3.5", "0.25", "2.0", "abc", "x y", "true", "false", "q", "1e3", "α"]
+# strings holding characters that str.splitlines() treats as line breaks (raw in ndjson / json files; never written through
+# YAML, whose own line folding turns NEL / LS into a blank)
+BREAKY_STRINGS = ["u\u2028v", "n\x85m", "f\x0cg", "r\x1es"]
+CSV_TOKENS = ["1", "2", "3", "10", "-4", "3.5", "0.25", "2.0", "abc", "x y", "true", "false", "q", "1e3", "α",
+              # cells a spreadsheet export really produces: embedded line break / comma / quote (quoted), and characters that
+              # str.splitlines() treats as line breaks although they are ordinary characters of a CSV cell
+              "l1\nl2", "c,d", 'q"r', "a\x0cb", "u\u2028v", "n\x85m"]
 FORMATS = ["csv", "json", "yaml", "ndjson"]
 
 
@@ -885,6 +904,9 @@ class SpecGen:
             colvals = []
             for _ in allcols:
                 colvals.append(self.csv_values(nrows) if fmt == "csv" else self.values(nrows))
+            if fmt in ("ndjson", "json") and nrows and r.random() < 0.25:
+                cv = r.choice(colvals)
+                cv[r.randrange(nrows)] = r.choice(BREAKY_STRINGS)
             header = [allcols[i] for i in order]
             rows = [[colvals[i][j] for i in order] for j in range(nrows)]
             ft = {"format": fmt, "shape": "rows", "header": header, "rows": rows}
@@ -1441,7 +1463,7 @@ def read_table(path: str, fmt: str) -> dict:
             raise _Skip("ragged / empty-cell / padded-header csv (not documented)")
         return {"format": fmt, "shape": "rows", "header": hdr, "rows": body}
     if fmt == "ndjson":
-        payload: Any = [json.loads(ln) for ln in text.splitlines() if ln.strip()]
+        payload: Any = [json.loads(ln) for ln in text.split("\n") if ln.strip()]     # records end at LF, nothing else
     elif fmt == "json":
         payload = json.loads(text)
     elif fmt == "yaml":
